@@ -17,8 +17,13 @@
     - [update_global_index_effect]  chain level: [run tx_fuel w [(sender, UpdateGlobalIndex)] []]
                                SUCCEEDS and the final world has the stated accounting;
     - [update_global_index_effect']  the same with the pre-dispatch world given as a hypothesis;
-    - [index_nonvacuous], [index_success_example]  a concrete wired world satisfying every hypothesis,
-                               on which the transaction succeeds;
+    - [withdraw_all_effect]    C19.2: the withdrawals zero the pending rewards and credit exactly them
+                               to the withdraw address;
+    - [bank_part_debits], [dispatch_bank_exact]  C19.3: the bank part of DispatchRewards' messages
+                               debits exactly the dispatcher's two reward balances;
+    - [index_nonvacuous], [index_success_example], [index_success_example_state]  a concrete wired
+                               world (built with [run_ops]) satisfying every hypothesis, on which the
+                               transaction succeeds with the predicted end state;
     - [F2_index_witness_*]     finding F2 at chain level: UpdateGlobalIndex FAILS with keeper rate 0,
                                and with dust rewards under a 5% keeper rate. *)
 From Coq Require Import Permutation.
@@ -390,7 +395,8 @@ Proof.
   set (w1 := set_env w0 e1).
   assert (Hpre1 : pre_dispatch w sender = Some w1).
   { unfold pre_dispatch. rewrite Hroot. cbn [bind fst snd]. rewrite removelast_last.
-    destruct (Exec_tx _ _ _ _ Hex1 ltac:(unfold tx_fuel; lia)) as [tr1 Hrun1]. rewrite Hrun1. reflexivity. }
+    assert (Hf1 : (n1 <= tx_fuel)%nat) by (clear - Hn1; unfold tx_fuel; lia).
+    destruct (Exec_tx _ _ _ _ Hex1 Hf1) as [tr1 Hrun1]. rewrite Hrun1. reflexivity. }
   assert (Hpend1 : forall v d, In v (del_vals e A_hub) -> In d DENOMS -> pending e1 A_hub v d = 0).
   { intros v d Hv Hd. rewrite Hp1. change (A_hub =? A_hub) with true. cbn [andb].
     assert (E1 : existsb (N.eqb v) (del_vals e A_hub) = true).
@@ -419,10 +425,12 @@ Proof.
   set (w' := set_reward (set_env (set_hub w1 h') e') r') in *.
   assert (Hexall : Exec w [(sender, root_msg)] w' (S ((n1 + n2) + 0))).
   { eapply Exec_cons; [exact Hroot | | constructor]. eapply Exec_app; [exact Hex1 | exact Hex2]. }
-  destruct (Exec_tx _ _ _ _ Hexall ltac:(unfold tx_fuel; lia)) as [tr Hrun].
+  assert (Hfall : (S ((n1 + n2) + 0) <= tx_fuel)%nat) by (clear - Hn1 Hn2; unfold tx_fuel; lia).
+  destruct (Exec_tx _ _ _ _ Hexall Hfall) as [tr Hrun].
   exists w', tr. split; [exact Hrun|]. cbn zeta. change (w_env w') with e'.
   assert (Hne : bd <> usei) by exact Hdbd.
-  assert (Ebu : (bd =? usei) = false) by lia. assert (Eub : (usei =? bd) = false) by lia.
+  assert (Ebu : (bd =? usei) = false) by (apply N.eqb_neq; exact Hdbd).
+  assert (Eub : (usei =? bd) = false) by (apply N.eqb_neq; intros E; apply Hdbd; symmetry; exact E).
   destruct Hm2 as (N1 & N2 & N3 & N4 & N5 & N6 & N7 & N8 & N9).
   split; [exact Hwb|]. split; [exact Hws|]. split; [exact Hwd|]. split; [exact Hwg|].
   split. { unfold w'. cbn [w_reward set_reward]. unfold r'. rewrite Hbal1 by discriminate. reflexivity. }
@@ -452,15 +460,16 @@ Proof.
   split.
   { rewrite Hbal2, !N.eqb_refl. change (A_reward =? A_disp) with false.
     assert (Ek : (A_reward =? keeper) = false) by (apply N.eqb_neq; intros E; apply Hk3; symmetry; exact E). rewrite Ek.
-    rewrite Hbal1 by discriminate. lia. }
+    rewrite Hbal1 by discriminate. rewrite N.add_0_r. reflexivity. }
   assert (Ekd : (keeper =? A_disp) = false) by (apply N.eqb_neq; exact Hk1).
   assert (Ekr : (keeper =? A_reward) = false) by (apply N.eqb_neq; exact Hk3).
-  split. { rewrite Hbal2, !N.eqb_refl, Ekd, Ekr. lia. }
+  split. { rewrite Hbal2, !N.eqb_refl, Ekd, Ekr. rewrite N.add_0_r. reflexivity. }
   split. { rewrite Hbal2, Eub, !N.eqb_refl, Ekd. reflexivity. }
   split.
   { intros a d Ha1 Ha2 Ha3 Ha4. rewrite Hbal2.
-    assert (E1 : (a =? A_disp) = false) by lia. assert (E2 : (a =? keeper) = false) by lia.
-    assert (E3 : (a =? A_reward) = false) by lia. rewrite E1, E2, E3, !N.add_0_r.
+    assert (E1 : (a =? A_disp) = false) by (apply N.eqb_neq; exact Ha1).
+    assert (E2 : (a =? keeper) = false) by (apply N.eqb_neq; exact Ha3).
+    assert (E3 : (a =? A_reward) = false) by (apply N.eqb_neq; exact Ha4). rewrite E1, E2, E3, !N.add_0_r.
     destruct (d =? bd); [|destruct (d =? usei)]; apply Hbal1; assumption. }
   split. { rewrite Hdl2, Hdel1. reflexivity. }
   split. { intros y Hy. rewrite Hoth2 by exact Hy. apply delegated_ext. exact Hd1. }
@@ -555,8 +564,8 @@ Proof.
   - cbn in H. inversion H; subst. cbn. lia.
   - unfold send_coins in H. cbn [foldM] in H. bind_inv H as e1 He1. destruct c as [dc x].
     apply send_coin_inv in He1. destruct He1 as (_ & Hle & ->).
-    specialize (IH _ _ H d). cbn [map sumN fst snd]. rewrite <- IH.
-    rewrite bal_xfer by exact Hne. rewrite N.eqb_refl.
+    specialize (IH _ _ H d). cbn [map sumN fst snd].
+    rewrite bal_xfer in IH by exact Hne. rewrite N.eqb_refl in IH.
     destruct (d =? dc) eqn:E.
     + apply N.eqb_eq in E. subst dc. rewrite N.eqb_refl. lia.
     + assert (E' : (dc =? d) = false) by lia. rewrite E'. lia.
@@ -570,7 +579,7 @@ Proof.
   induction msgs as [|m msgs IH]; intros e e' Hd H d.
   - cbn in H. inversion H; subst. cbn. lia.
   - cbn [foldM] in H. bind_inv H as e1 He1.
-    specialize (IH e1 e' (fun m0 Hm0 => Hd m0 (or_intror Hm0)) H d). cbn [map sumN]. rewrite <- IH.
+    specialize (IH e1 e' (fun m0 Hm0 => Hd m0 (or_intror Hm0)) H d). cbn [map sumN].
     specialize (Hd m (or_introl eq_refl)).
     destruct m; cbn [bank_part sent_of msg_dest] in *; try (inversion He1; subst; lia).
     + pose proof (send_coins_debits self to ltac:(congruence) funds e e1 He1 d). lia.
@@ -745,3 +754,105 @@ Proof.
   { intros [[_ [H|H]]|[_ H]]; vm_compute in H; discriminate. }
   apply N.ltb_lt. vm_compute. reflexivity.
 Qed.
+
+(** ** the vocabulary of Props/C19.v, unfolded (all by computation) *)
+Lemma def_touch_lim : forall s t, touch_lim s t =
+  mkHubState (hs_ber s) (hs_ser s) (hs_bb s) (hs_bst s) t (hs_phb s) (hs_lut s) (hs_lpb s).
+Proof. reflexivity. Qed.
+
+Lemma def_withdraw_msgs : forall e a,
+  withdraw_msgs e a = map (fun d => MWithdrawReward (fst d)) (all_delegations e a).
+Proof. reflexivity. Qed.
+
+Lemma def_ugi_tail : forall d s, ugi_tail d s =
+  [MWasm d (WDisp (DSwap (hs_bb s) (hs_bst s))) []; MWasm d (WDisp DDispatch) []].
+Proof. reflexivity. Qed.
+
+Lemma def_del_vals : forall e a, del_vals e a = map fst (all_delegations e a).
+Proof. reflexivity. Qed.
+
+Lemma def_withdraw_all : forall a vs e,
+  withdraw_all a vs e = fold_left (fun e v => payout e a v) vs e.
+Proof. reflexivity. Qed.
+
+Lemma def_pend_total : forall e a vs d,
+  pend_total e a vs d = sumN (map (fun v => pending e a v d) vs).
+Proof. reflexivity. Qed.
+
+Lemma def_in_denoms : forall d, in_denoms d = true <-> In d DENOMS.
+Proof. exact in_denoms_In. Qed.
+
+Lemma def_index_updated : forall r b, index_updated r b =
+  if rw_total r =? 0 then r
+  else set_rw_state r (rw_gi r + (b - rw_prev r) * D / rw_total r) (rw_total r) b.
+Proof. reflexivity. Qed.
+
+Lemma def_bonded_rewards : forall s x q, bonded_rewards s x q =
+  mkHubState (hs_ber s) q (hs_bb s) (hs_bst s + x) (hs_lim s) (hs_phb s) (hs_lut s) (hs_lpb s).
+Proof. reflexivity. Qed.
+
+Lemma def_delegate_amounts : forall ms, delegate_amounts ms =
+  sumN (map (fun m => match m with MDelegate _ c => snd c | _ => 0 end) ms).
+Proof. reflexivity. Qed.
+
+Lemma def_root_msg : root_msg = MWasm A_hub (WHub (HUpdateGlobal 0)) [].
+Proof. reflexivity. Qed.
+
+Lemma def_pre_dispatch : forall w sender, pre_dispatch w sender =
+  (do r <- step_msg w sender root_msg;
+   do r2 <- run tx_fuel (fst r) (removelast (snd r)) [];
+   Some (fst r2)).
+Proof. reflexivity. Qed.
+
+Lemma def_bank_part : forall self e m, bank_part self e m =
+  match m with
+  | MBank to cs => bank_send e self to cs
+  | MWasm to _ fs => send_coins e self to fs
+  | _ => Some e
+  end.
+Proof. reflexivity. Qed.
+
+Lemma def_RegOk : forall g, RegOk g <->
+  rg_vals g <> [] /\ NoDup (rg_vals g) /\ (forall v, In v (rg_vals g) -> is_val v = true).
+Proof. intros g. reflexivity. Qed.
+
+Lemma def_IndexWiring : forall w, IndexWiring w <->
+  match w_disp w, w_reg w with
+  | Some d, Some g =>
+      dp_swap d = A_swap /\ dp_oracle d = A_oracle /\ dp_rate d <= D /\
+      dp_keeper d <> A_disp /\ dp_keeper d <> A_hub /\ dp_keeper d <> A_reward /\ RegOk g
+  | _, _ => False
+  end.
+Proof. intros w. reflexivity. Qed.
+
+Lemma def_StubsOk : forall e, StubsOk e <->
+  e_swapmode e = SwOk /\ e_oraclemode e = OrOk /\ 0 < e_price e /\ e_price e <= D * D.
+Proof. intros e. reflexivity. Qed.
+
+Lemma def_IndexE1 : forall w, IndexE1 w <->
+  match w_hub w, w_reward w, w_bsei w, w_stsei w with
+  | Some h, Some r, Some tb, Some ts =>
+      let e := w_env w in
+      hs_bb (h_state h) + hs_bst (h_state h) <= LIM /\ delegated e A_hub <= LIM /\
+      claims_b h tb <= LIM /\ claims_st h ts <= LIM /\
+      (forall d, bal e A_disp d + pend_total e A_hub (del_vals e A_hub) d <= LIM) /\
+      bal e A_reward (rw_denom r) <= LIM /\ rw_gi r <= D * D
+  | _, _, _, _ => False
+  end.
+Proof. intros w. reflexivity. Qed.
+
+Lemma def_RewardSolvent : forall w, RewardSolvent w <->
+  match w_reward w with
+  | Some r => rw_prev r <= bal (w_env w) A_reward (rw_denom r)
+  | None => False
+  end.
+Proof. intros w. reflexivity. Qed.
+
+Lemma def_HubReady : forall w sender, HubReady w sender <->
+  match w_hub w with
+  | Some h => paused h = false /\ 0 < hs_bb (h_state h) + hs_bst (h_state h) /\
+              (sender = hc_updater (h_cfg h) \/ sender = A_reg)
+  | None => False
+  end.
+Proof. intros w sender. reflexivity. Qed.
+
